@@ -5,7 +5,7 @@
    pv: the kind of panic value recognised in the ERROR record; 1000 + kind = recognised only loosely (the
    text is non-empty and contains the value's salient payload, but is not the expected rendering): DRIFT. *)
 let () =
-  let cases = ref 0 and specfail = ref 0 and mismatch = ref 0 and outscope = ref 0 and drift = ref 0 in
+  let cases = ref 0 and specfail = ref 0 and mismatch = ref 0 and outscope = ref 0 and drift = ref 0 and bodydiff = ref 0 in
   let ni s = n_of_int (int_of_string s) in
   iter_lines Sys.argv.(1) (fun line ->
     match split_ws line with
@@ -40,9 +40,12 @@ let () =
                     Printf.printf "SPECFAIL %s noescape=%b relay500=%b records=%b\n" line v.spec_noescape v.spec_500 v.spec_records end
                   else if not v.model_ok then begin
                     incr mismatch; Printf.printf "MISMATCH %s\n" line end
+                  else if not v.model_body then begin
+                    (* the property does not constrain the body (e.g. a bare 500 without http.Error's text) *)
+                    incr drift; incr bodydiff; Printf.printf "DRIFT %s\n" line end
                   else if !loose then begin
                     incr drift; Printf.printf "DRIFT %s\n" line end
               | [] -> bad ())
          | _ -> bad ())
     | _ -> ());
-  Printf.printf "STATS cases=%d specfail=%d mismatch=%d drift=%d outside_property_scope=%d\n" !cases !specfail !mismatch !drift !outscope
+  Printf.printf "STATS cases=%d specfail=%d mismatch=%d drift=%d outside_property_scope=%d relay500_body_differs=%d\n" !cases !specfail !mismatch !drift !outscope !bodydiff
